@@ -943,6 +943,10 @@ class Engine:
             a = self.coerce(a, TOpt(b.ty) if not isinstance(b.ty, TOpt) else b.ty, st)
         if b.ty == TNoneLit and a.ty != TNoneLit:
             b = self.coerce(b, TOpt(a.ty) if not isinstance(a.ty, TOpt) else a.ty, st)
+        if isinstance(a.ty, TEmpty) and hasattr(b.ty, "empty") and not isinstance(b.ty, TEmpty):
+            a = b.ty.empty()        # an empty literal takes the container type of the other branch
+        if isinstance(b.ty, TEmpty) and hasattr(a.ty, "empty") and not isinstance(a.ty, TEmpty):
+            b = a.ty.empty()
         if a.ty != b.ty:
             if isinstance(a.ty, TOpt) and a.ty.elem == b.ty:
                 b = self.coerce(b, a.ty, st)
